@@ -14,7 +14,7 @@ DEFAULTS = dict(sort_query=True, strip_authentication=True, strip_trailing_slash
                 strip_irrelevant_subdomains=True, strip_fragment="except-routing", normalize_amp=True, fix_common_mistakes=True,
                 infer_redirection=True)
 BOOL_OPTS = [k for k in DEFAULTS if k != "strip_fragment"]
-NEAR_MISSES = {(b"source", b"it"), (b"source", None), (b"source", b""), (b"source", b"twitterx"), (b"ref", b"f"), (b"ref", b"fbx"), (b"ref", b"mine"), (b"mode", b"am"), (b"mode", b"dark"),
+NEAR_MISSES = {("\u017fid".encode(), b"3"), ("fbcl\u0131d".encode(), b"2"), (b"source", b"it"), (b"source", None), (b"source", b""), (b"source", b"twitterx"), (b"ref", b"f"), (b"ref", b"fbx"), (b"ref", b"mine"), (b"mode", b"am"), (b"mode", b"dark"),
                (b"platform", b"hoot"), (b"platform", b"ios"), (b"sns", b"t"), (b"sns", b"tww"), (b"spref", b"w"), (b"fromref", b"twit"), (b"m", b"2")}
 PER_DOMAIN_KEYS = {"facebook.com": {b"_rdr", b"_rdc"}, "youtube.com": {b"t", b"si", b"cbrd", b"ucbcb", b"ab_channel"}}
 IRRELEVANT_LABEL = re.compile(r"^(?:www\d?|mobile|m)$", re.I)
@@ -233,7 +233,8 @@ def host_ok(hin, hout, opts):
         a, b = hin[i], hout[j]
         if a == b and rec(i + 1, j + 1, False):
             return True
-        if opts["normalize_amp"] and a.startswith("amp-") and a[4:] == b and rec(i + 1, j + 1, False):
+        # ... the prefix is a prefix of the emitted HOST: only the label that comes out first can have lost it
+        if j == 0 and opts["normalize_amp"] and a.startswith("amp-") and a[4:] == b and rec(i + 1, j + 1, False):
             return True
         if irrelevant(a, opts) and rec(i + 1, j, first):
             return True
@@ -252,6 +253,8 @@ def irrelevant(label, opts):
 def base_urls():
     hosts = ["a.com", "www.a.com", "WWW2.A.Com", "m.a.com", "mobile.a.com", "forum-m.example.com", "wwwx.a.com", "am.a.com", "amp.a.com", "amp-edition.a.com",
              "xn--tlrama-bvab.fr", "a.www.b.com", "www.m.a.com", "u:p@www.a.com", "a.com:8080", "a.com:80", "a.com:443", "programm.a.com", "m-x.a.com", "x-m.a.com",
+             # 'amp-' at the start of an INNER label is part of a name
+             "x.amp-y.a.com", "amp-x.amp-y.a.com", "www.amp-x.a.com",
              # hosts made of irrelevant labels only (fully-qualified spellings: the trailing dot closes the label)
              "www.", "m.", "www.m.", "amp.", "www", "amp-"]
     # per-domain query filters: the domain itself, a subdomain, and hosts that merely END with its letters
@@ -265,7 +268,7 @@ def base_urls():
                # key + value combinations: irrelevant for some values only (and AMP ones only with normalize_amp)
                "ref=fb&id=1", "ref=mine&id=1", "mode=amp&mode=dark", "outputType=amp&x=1", "m=1&m=2", "platform=hootsuite&platform=ios",
                # ... near misses of the listed values: a substring, a superstring, the empty value, no value at all
-               "source=it&page=2", "source&page=2", "source=&x=1", "source=twitterx", "ref=f&x=1", "ref=fbx", "mode=am&x=1", "platform=hoot", "sns=t&sns=tww", "spref=w", "fromref=twit"]
+               "\u017fid=3&x=1", "\u212aey=1&fbcl\u0131d=2", "source=it&page=2", "source&page=2", "source=&x=1", "source=twitterx", "ref=f&x=1", "ref=fbx", "mode=am&x=1", "platform=hoot", "sns=t&sns=tww", "spref=w", "fromref=twit"]
     frags = [None, "frag", "/route", "!/route", "!", "/"]
     out = []
     for h in hosts:
